@@ -3,6 +3,8 @@
          ProjectedGradientDescentBacktracking._is_doing_for_alpha   (gen_is_doing_for_alpha)
          ProjectedGradientDescentBacktracking.optimize              (gen_body, gen_for, gen_optimize, gen_warning)
      quara/interface/cvxpy/conversion.py : num_cvxpy_variable       (gen_num_cvxpy_variable)
+         generate_cvxpy_constraints_from_cvxpy_variable(_with_sparsity)  (gen_constraints_dense / _sparse; generate_cvxpy_variable: shape check)
+     quara/interface/cvxpy/qtomography/standard/loss_function.py : the three value_cvxpy expressions (gen_cvx_re / gen_cvx_se / gen_cvx_are)
    The regenerated text equals the hand-written model (Model/C11_Pgdb.v, Model/C11_Cvx.v) the property theorems are stated about,
    for ALL inputs (every loss f, gradient g, projection P, square-root oracle sq, dimension, option values, start point, iteration
    limit and line-search fuel), hence the theorems of Props/C11.v (feasible monotone runs, first-success line search, ...) are
@@ -118,6 +120,51 @@ End C11_Equiv.
 Print Assumptions gen_is_doing_for_alpha_eq.
 Print Assumptions gen_body_eq.
 Print Assumptions gen_optimize_eq.
+
+(* ---- the CVXPY loss expressions = the closed forms of the model, for all data, ratios, predicted probabilities and any ln *)
+Section C11_EquivCvx.
+Context (F : OF).
+Add Field Ffeq11c : (k_field F).
+Variables (ln : F -> F) (S : nat) (nout : nat -> nat) (c : nat -> F) (q p : nat -> nat -> F) (eps : F).
+
+Lemma one_ne0 : c1 F <> c0 F. Proof. exact (one_neq_zero F). Qed.
+(* (x0 + sum_i X_i) with X_i = y0 + c_i (z0 + sum_j A_ij)  normalises to  sum_i c_i sum_j A_ij  when the initial values are 0 *)
+Lemma acc2 (A : nat -> nat -> F) :
+  cadd F (c0 F) (sumn S (fun i => cadd F (c0 F) (cmul F (c i) (cadd F (c0 F) (sumn (nout i) (fun j => A i j))))))
+  = sumn S (fun i => cmul F (c i) (sumn (nout i) (fun j => A i j))).
+Proof. transitivity (sumn S (fun i => cadd F (c0 F) (cmul F (c i) (cadd F (c0 F) (sumn (nout i) (fun j => A i j)))))); [ring|].
+  apply sumn_ext; intros i _. ring. Qed.
+
+Lemma acc_split (n : nat) (ci : F) (A B : nat -> F) :
+  cadd F (cmul F ci (sumn n A)) (cadd F (c0 F) (cmul F ci (cadd F (c0 F) (sumn n B)))) = cmul F ci (sumn n (fun j => cadd F (A j) (B j))).
+Proof. rewrite sumn_add. ring. Qed.
+
+Theorem gen_cvx_se_eq : gen_cvx_se F ln S nout c q p eps = C11_cvx_se F S nout c q p.
+Proof. unfold gen_cvx_se, C11_cvx_se. rewrite acc2. apply sumn_ext; intros i _. f_equal. apply sumn_ext; intros j _.
+  field. exact one_ne0. Qed.
+
+Theorem gen_cvx_re_eq : gen_cvx_re F ln S nout c q p eps = C11_cvx_re F ln eps S nout c q p.
+Proof. unfold gen_cvx_re, C11_cvx_re, C11_gt. rewrite acc2.
+  rewrite <- sumn_add. apply sumn_ext; intros i _. cbv beta.
+  rewrite acc_split.
+  f_equal. apply sumn_ext; intros j _. destruct (negb (kleb F (q i j) eps)); ring. Qed.
+
+Theorem gen_cvx_are_eq : (forall i j, (i < S)%nat -> (j < nout i)%nat -> C11_gt F (q i j) eps = true -> q i j <> c0 F) ->
+  gen_cvx_are F ln S nout c q p eps = C11_cvx_are F eps S nout c q p.
+Proof. intros Hq. unfold gen_cvx_are, C11_cvx_are. rewrite acc2. apply sumn_ext; intros i Hi. f_equal. apply sumn_ext; intros j Hj.
+  pose proof (Hq i j Hi Hj) as Hn. unfold C11_gt in *. destruct (negb (kleb F (q i j) eps)); [|ring].
+  unfold C11_half. field. split; [exact (Hn eq_refl)|exact (double_neq0 F _ one_ne0)]. Qed.
+End C11_EquivCvx.
+Print Assumptions gen_cvx_se_eq.
+Print Assumptions gen_cvx_re_eq.
+Print Assumptions gen_cvx_are_eq.
+
+(* ---- the two constraint generators = the table of the model, for every type string and outcome count *)
+Theorem gen_constraints_eq : forall (t : string) (m : nat),
+  gen_constraints_dense t m = C11_constraint_table false t m /\ gen_constraints_sparse t m = C11_constraint_table true t m.
+Proof. intros t m. unfold gen_constraints_dense, gen_constraints_sparse, C11_constraint_table. cbv zeta.
+  destruct (String.eqb t "state"), (String.eqb t "povm"), (String.eqb t "gate"), (String.eqb t "mprocess"); split; reflexivity. Qed.
+Print Assumptions gen_constraints_eq.
 
 (* ---- num_cvxpy_variable = the parameter count of the model, for every type string, dimension and outcome count *)
 Theorem gen_num_cvxpy_variable_eq : forall (t : string) (dim : Z) (m : option Z),
